@@ -14,8 +14,8 @@ CLAIMS = {
         "design_ref": "DESIGN.md section 4 C02",
     },
     "C03": {
-        "text": "Partial. _colr0_layers: one layer per PaintGlyph leaf in z-order, transformed leaves through a one-component glyph carrying the COLR-semantics accumulated transform, palette index of the non-opaque colour (finite scope over 4 tree shapes, labelled bounded); viewBox->font affine discharged for all inputs. Bounded: generated solid-fill source sets built as COLRv0 (glyf and CFF) and compared by sampling; glyf builds: every source outline placed exactly once at its source position, nothing else.",
-        "note": "ufoLib2/ufo2ft/fontTools assumed; _create_transformed_glyph assumed (checked natively through the harness).  Observation (not claimed by the statement): in a plain glyf build a mirrored reused component that overlaps another shape cancels it under non-zero winding (upstream issue #287; color_glyph._any_overlap_with_reversing_transform is dead code).",
+        "text": "Partial. _colr0_layers: one layer per PaintGlyph leaf in z-order, transformed leaves through a one-component glyph carrying the COLR-semantics accumulated transform, palette index of the non-opaque colour (finite scope over 4 tree shapes, labelled bounded); viewBox->font affine discharged for all inputs; _create_transformed_glyph: exactly one component of the layer's outline glyph under exactly the accumulated transform (all six numbers; ufoLib2 constructors summarised). Bounded: generated solid-fill source sets built as COLRv0 (glyf and CFF) and compared by sampling; glyf builds: every source outline placed exactly once at its source position, nothing else.",
+        "note": "ufoLib2/ufo2ft/fontTools assumed (Component keeps its keyword arguments; glyph naming bounded-tier only).  Observation (not claimed by the statement): in a plain glyf build a mirrored reused component that overlaps another shape cancels it under non-zero winding (upstream issue #287; color_glyph._any_overlap_with_reversing_transform is dead code).",
         "design_ref": "DESIGN.md section 4 C03",
     },
     "C04": {
@@ -44,12 +44,12 @@ CLAIMS = {
         "design_ref": "DESIGN.md section 4 C05",
     },
     "C06": {
-        "text": "Partial (relational property decided through per-build contracts). Discharged for all inputs: try_reuse returns a donor iff picosvg reports a match whose affine fits Fixed and never when reuse is disabled; add_glyph registers under the normal form; _update_paint_glyph emits either a fresh glyph or the donor under (approximately) the reuse affine with solid fills kept, linear and radial gradients counter-transformed by exactly 'wrapper then inverse reuse affine' (cancellation lemma), un-reused iff that counter-transform does not fit Fixed. Known finding F9 (tolerance 0) is excluded by its witness class.",
+        "text": "Partial (relational property decided through per-build contracts). Discharged for all inputs: try_reuse returns a donor iff picosvg reports a match whose affine fits Fixed and never when reuse is disabled; add_glyph registers under the normal form; _update_paint_glyph emits either a fresh glyph or the donor under (approximately) the reuse affine with solid fills kept, linear and radial gradients counter-transformed by exactly 'wrapper then inverse reuse affine' (cancellation lemma), un-reused iff that counter-transform does not fit Fixed. Bounded, through the real command line (part-file steps included): a positive tolerance and the documented -1 both build and both fonts paint the sources. Known finding F9 (tolerance 0) is excluded by its witness class.",
         "note": "picosvg normalize/affine_between are uninterpreted functions with assumed contracts (functional; an affine that maps donor to target within tolerance, invertible); SVGPath.apply_transform uninterpreted; _create_glyph assumed; non-singularity of the combined gradient transform assumed at the _decompose_uniform_transform call; OT-SVG reuse (<use>) is bounded-tier only; A-real.",
         "design_ref": "DESIGN.md section 4 C06",
     },
     "C19": {
-        "text": "Partial. Discharged: try_reuse never declines a match picosvg reports (result is None iff reuse disabled, no donor with the same normal form, no affine, or affine outside Fixed); _update_paint_glyph takes a non-None reuse result unless the gradient counter-transform overflows. That picosvg's normal form is invariant under translation/rotation/reflection is an assumption about the dependency, checked in the bounded tier.",
+        "text": "Partial. Discharged: try_reuse never declines a match picosvg reports (result is None iff reuse disabled, no donor with the same normal form, no affine, or affine outside Fixed); _update_paint_glyph takes a non-None reuse result unless the gradient counter-transform overflows. That picosvg's normal form is invariant under translation/rotation/reflection is an assumption about the dependency, checked in the bounded tier. Bounded: congruent copies stored once (COLRv1, OT-SVG; within and across glyphs); a cache history of shapes with pairwise different normal forms finds every earlier shape for its exact translated copy (known findings K10, K12: normal-form keyed cache, pinned by witnesses).",
         "note": "picosvg normalize/affine_between assumed (uninterpreted); OT-SVG <use> creation bounded-tier only.",
         "design_ref": "DESIGN.md section 4 C19",
     },
